@@ -263,6 +263,73 @@ fn gen_bytes(r: &mut Rng) -> (Vec<u8>, usize) {
     (buf, 0)
 }
 
+/// a web of pointers: the name under test sits at the end and points back to a fragment that itself
+/// ends in a pointer *forward* to a later fragment (still in front of the name's first pointer), and
+/// so on. Every pointer lies in front of the first one, as the decoders demand, but only the first is
+/// a backward reference; targets at the bound (first pointer − 3 … first pointer + 1) included.
+fn gen_web(r: &mut Rng) -> (Vec<u8>, usize) {
+    let mut buf = Vec::new();
+    for _ in 0..r.below(6) {
+        buf.push(r.byte());
+    }
+    let n_frag = r.range(2, 5) as usize;
+    // fragment i: 1..2 labels, then a pointer to fragment i+1 (patched below) or the root
+    let mut frag_start = Vec::new();
+    let mut ptr_at = Vec::new();
+    for i in 0..n_frag {
+        frag_start.push(buf.len());
+        for _ in 0..r.range(if i == 0 { 0 } else { 1 }, 2) {
+            let l = valid_label_rng(r, 1, 5);
+            push_label(&mut buf, &l);
+        }
+        if i + 1 < n_frag {
+            ptr_at.push(buf.len());
+            push_ptr(&mut buf, 0);
+        } else {
+            buf.push(0);
+        }
+        for _ in 0..r.below(4) {
+            buf.push(r.byte());
+        }
+    }
+    // visiting order of the fragments: a permutation starting anywhere, so that hops go both ways
+    let mut order: Vec<usize> = (0..n_frag).collect();
+    if r.chance(2, 3) {
+        for i in (1..order.len()).rev() {
+            let j = r.below(i as u64 + 1) as usize;
+            order.swap(i, j);
+        }
+    }
+    // fragment k's pointer (if it has one) leads to the fragment after it in `order`; the fragment
+    // whose successor does not exist keeps its pointer target 0 unless it is the last fragment
+    for w in order.windows(2) {
+        let (from, to) = (w[0], w[1]);
+        if from + 1 < n_frag {
+            let at = ptr_at[from];
+            let t = frag_start[to];
+            buf[at] = 0xC0 | ((t >> 8) as u8 & 0x3F);
+            buf[at + 1] = t as u8;
+        }
+    }
+    let start = buf.len();
+    for _ in 0..r.below(3) {
+        let l = valid_label_rng(r, 1, 4);
+        push_label(&mut buf, &l);
+    }
+    let p0 = buf.len();
+    let first = frag_start[order[0]];
+    push_ptr(&mut buf, first);
+    if r.chance(1, 6) {
+        // one inner pointer aimed at the bound
+        if let Some(&at) = ptr_at.first() {
+            let t = (p0 as i64 + *r.pick(&[-4i64, -3, -2, -1, 0, 1])).max(0) as usize;
+            buf[at] = 0xC0 | ((t >> 8) as u8 & 0x3F);
+            buf[at + 1] = t as u8;
+        }
+    }
+    (buf, start)
+}
+
 fn gen_random(r: &mut Rng) -> (Vec<u8>, usize) {
     let n = r.below(40) as usize;
     let mut buf = Vec::with_capacity(n);
@@ -281,11 +348,21 @@ fn gen_random(r: &mut Rng) -> (Vec<u8>, usize) {
     (buf, pos)
 }
 
-pub fn gen(r: &mut Rng, _index: u64) -> String {
+pub fn gen(r: &mut Rng, index: u64) -> String {
+    gen_mode(r, index, None)
+}
+
+/// stream `names`: the same buffers, decoded through all four instantiations at once
+pub fn gen_all(r: &mut Rng, index: u64) -> String {
+    gen_mode(r, index, Some("all"))
+}
+
+fn gen_mode(r: &mut Rng, _index: u64, fixed: Option<&'static str>) -> String {
     let far = r.chance(1, 25);
     let (mut buf, mut pos) = match r.below(if far { 21 } else { 20 }) {
         20 => gen_far(r),
-        0..=6 => gen_structured(r),
+        0..=4 => gen_structured(r),
+        5..=6 => gen_web(r),
         7..=9 => gen_ptr_boundary(r),
         10..=11 => gen_chain(r),
         12..=14 => gen_long(r),
@@ -309,7 +386,28 @@ pub fn gen(r: &mut Rng, _index: u64) -> String {
         }
     }
     let mode = *r.pick(&MODES);
-    format!("name {} {} {}", mode, pos, to_hex(&buf))
+    match fixed {
+        Some(_) => format!("names {} {}", pos, to_hex(&buf)),
+        None => format!("name {} {} {}", mode, pos, to_hex(&buf)),
+    }
+}
+
+/// `names <pos> <hex>` -> `heap=<answer> | inline=<answer> | skip=<answer> | iter=<answer>`
+pub fn eval_all(toks: &[&str]) -> String {
+    if toks.len() != 3 {
+        return "bad-request".into();
+    }
+    let parts: Vec<String> = MODES
+        .iter()
+        .map(|m| {
+            let a = std::panic::catch_unwind(|| eval(&["name", m, toks[1], toks[2]])).unwrap_or_else(|_| "panic".to_string());
+            format!("{}={}", m, a)
+        })
+        .collect();
+    if parts.iter().any(|p| p.ends_with("=bad-request")) {
+        return "bad-request".into();
+    }
+    parts.join(" | ")
 }
 
 pub fn eval(toks: &[&str]) -> String {
